@@ -64,7 +64,7 @@ CHECKS = {
     "C06": ("fault_enumeration", "vf-stark",
             "property-based testing / fuzzing-style mutation (proptest + exhaustive enumeration) with panic capture, measuring allocator, fatal-signal containment and watchdog",
             "Fault enumeration over hostile inputs: for a basket of small honest proofs truncation at every offset, every byte replaced by 0x00/0x01/0x7f/0x80/0xff, every length/count/size/scalar field set to 0/1/max-1/max/+-1/*2 (exhaustive; thorough adds every bit flip); chains of 1..3 structure-aware mutations of generated proofs over all 12 field/hasher pairs; proofs spliced from the components of two different proofs; raw byte strings with and without a valid context prefix. Parse (Proof::from_bytes and Proof::read_from over the streaming ReadAdapter) and verify (against the proof's own and against another statement, under every kind of acceptance policy: minimal conjectured / proven security, an option set, the empty set) must return Ok/Err: any panic (overflow checks on), any single allocation above max(16 MiB, 4096 x input), any fatal signal, absurd allocation request or non-termination is a violation with the input as replay file.",
-            "The harness' own Air is total (falls back to a fixed AIR when the proof's trace shape does not match the statement), so panics are the library's. Two open known findings: assertions of AirContext reached through the infallible Air::new with untrusted options (API-level, see known_findings.json). Out-of-bounds reads inside unsafe code that do not crash are observable in the libFuzzer stage only (ASan).",
+            "The harness' own Air is total (falls back to a fixed AIR when the proof's trace shape does not match the statement), so panics are the library's. One open known finding: the blowup assertion of AirContext reached through the infallible Air::new with untrusted options (API-level, see known_findings.json). Out-of-bounds reads inside unsafe code that do not crash are observable in the libFuzzer stage only (ASan).",
             "DESIGN.md 3/C06"),
     "C05": ("fault_enumeration", "vf-fri",
             "property-based adversarial testing (proptest) with adaptive provers (AdvFri) and an exact legitimacy oracle",
